@@ -5,7 +5,10 @@
                  lockdriver evaluates the checker per function so that a failure names function and access
   3. search      ThreadSanitizer build of harness/locks_harness.c against the current tree: N readers + 1 writer;
                  failing input = TSan race report / abort / an observation that is not the answer of any table
-                 version inside its window (linearizability) or goes back in time (monotonicity; C06 two-state)
+                 version inside its window (linearizability) or goes back in time (monotonicity; C06 two-state).
+                 A successful full reload is ONE version step that replaces the prefix table and the router-key table
+                 together; the `xtable` schedules (corpus/locks/*.xops) park a reader inside one live table while the
+                 real reload runs and watch a second reader for "new data of one table, afterwards old data of the other"
   4. C06 size classes   reloads whose old and new router-key tables lie in different size classes of the hash table
                  (thresholds from TOMMY_HASHLIN_BIT and vlib.source_literals() of the tree under test), growing and
                  shrinking, one and several steps apart, also after the live table was shrunk by removals; readers
@@ -37,19 +40,23 @@ PROPS = {
         "modules": ["RtrProps.C06"],
         "theorems": ["Rtr.C06.reload_sequence", "Rtr.C06.reload_wellLocked", "Rtr.C06.readers_wellLocked",
                      "Rtr.C06.reload_single_swap_pfx", "Rtr.C06.reload_single_swap_spki", "Rtr.C06.readers_never_write",
-                     "Rtr.C06.swap_atomic_pfx", "Rtr.C06.swap_writes_pfx", "Rtr.C06.swap_atomic_spki",
-                     "Rtr.C06.swap_sections_spki", "Rtr.C06.reload_two_states", "Rtr.C06.reload_monotone",
+                     "Rtr.C06.reload_two_states", "Rtr.C06.reload_monotone",
                      "Rtr.C06.never_new_then_old", "Rtr.C06.stable_answers", "Rtr.C06.reload_no_race",
-                     "Rtr.C06.cross_table_gap"],
+                     # across the two tables (the reload swaps both in ONE critical section; until the fix of the former
+                     # known finding C06/cross-table this list ended with cross_table_gap, the proof that it did not)
+                     "Rtr.C06.unlocked_writers_translated", "Rtr.C06.swap_section_combined", "Rtr.C06.swap_atomic_both",
+                     "Rtr.C06.swap_writes_both", "Rtr.C06.reload_accepts", "Rtr.C06.cross_table_atomic",
+                     "Rtr.C06.cross_table_no_gap", "Rtr.C06.cross_table_two_states", "Rtr.C06.never_new_pfx_then_old_keys",
+                     "Rtr.C06.never_new_keys_then_old_pfx", "Rtr.C06.stable_pair_answers", "Rtr.C06.sample_states"],
     },
 }
 # functions that are allowed to read without the lock (single-writer regime), must equal Rtr.C16.singleWriterOnly
 SINGLE_WRITER_ONLY = {"spki_table_notify_diff"}
 # functions whose lock discipline C06 depends on
-C06_FNS = {"pfx_table_copy_except_socket", "pfx_table_swap", "pfx_table_notify_diff", "pfx_table_add", "pfx_table_remove",
+C06_FNS = {"pfx_table_copy_except_socket", "pfx_table_notify_diff", "pfx_table_add", "pfx_table_remove",
            "pfx_table_validate_r", "pfx_table_validate", "pfx_table_for_each_ipv4_record", "pfx_table_for_each_ipv6_record",
-           "spki_table_copy_except_socket", "spki_table_swap", "spki_table_notify_diff", "spki_table_add_entry",
-           "spki_table_remove_entry", "spki_table_get_all", "spki_table_search_by_ski"}
+           "spki_table_copy_except_socket", "spki_table_notify_diff", "spki_table_add_entry",
+           "spki_table_remove_entry", "spki_table_get_all", "spki_table_search_by_ski", "rtr_swap_tables"}
 
 TSAN_FLAGS = ["-O1", "-g", "-fsanitize=thread", "-fno-omit-frame-pointer", "-UNDEBUG"]
 M64 = (1 << 64) - 1
@@ -106,10 +113,12 @@ def validate(pfx, q):
 
 class World:
     """contents of the two live tables after every atomic step of the writer.  An operation is one step, except
-    pfx_table_src_remove (one critical section per address family: IPv4 first) and a successful reload (prefix-table
-    swap, then router-key swap): their intermediate states are table contents a reader can legitimately see.
-    `vend[k]` = index of the state after operation k.  With atomic_reload=True the reload is modelled as one step
-    (what C06 would like to hold across both tables)."""
+    pfx_table_src_remove (one critical section per address family: IPv4 first): its intermediate state is table
+    contents a reader can legitimately see.  `vend[k]` = index of the state after operation k.
+    atomic_reload=True (what C06 demands and the check enforces): a successful reload is ONE step that replaces both
+    tables.  atomic_reload=False adds the intermediate state "prefix table swapped, router-key table not yet" of a
+    reload with two critical sections; it is used only to CLASSIFY a failure (a run that is consistent with the
+    two-step reload but not with the atomic one shows exactly the cross-table gap)."""
 
     def __init__(self, atomic_reload=False):
         self.pfx = [frozenset()]
@@ -736,7 +745,8 @@ def ir_diagnosis(drv, only=None):
     for i in range(n):
         name, kind, strict, write = out[4 * i:4 * i + 4]
         table[name] = (kind, strict, write)
-        if kind != "public" or (only is not None and name not in only):
+        # the table API, and the functions of packets.c that take table locks themselves (kind "other": rtr_swap_tables)
+        if (kind != "public" and name not in set(info.get("reloadFns", []))) or (only is not None and name not in only):
             continue
         if strict != "ok" and name not in SINGLE_WRITER_ONLY:
             bad.append((name, "all accesses guarded (api_wellLocked)", strict))
@@ -934,6 +944,18 @@ def run(pid, tier):
     else:
         rep.build_log = (getattr(rep, "build_log", "") + "\nlockdriver build failed:\n" + dlog)[-6000:]
     ir_text = "".join("# IR: %s violates '%s': %s\n" % b for b in ir_bad)
+    if pid == "C06":
+        info = gen_locks_info()
+        rc_names = [c[0] for c in (info.get("reloadCalls") or [])]
+        split = [n for n in ("pfx_table_swap", "spki_table_swap") if n in rc_names]
+        if split:
+            ir_text += ("# IR: %s calls %s: each of them is a critical section of its own (the reload must put both shadow tables in "
+                        "place inside ONE section that holds the write locks of both live tables)\n" % (gen_locks.RELOAD_FN, " and ".join(split)))
+        if not info.get("reloadFns"):
+            ir_text += ("# IR: no function of %s takes table locks itself (expected: rtr_swap_tables, the combined critical section "
+                        "of the two swaps)\n" % gen_locks.RELOAD_FILE)
+        for c in info.get("unlockedWriterCalls") or []:
+            ir_text += "# IR: %s: %s calls the lock-free worker %s outside the translated code (no lock discipline checked there)\n" % tuple(c)
 
     # 3. implementation side
     exe, blog = build_tsan_harness()
@@ -960,15 +982,20 @@ def run(pid, tier):
             return
         if nrace:
             failures.append(("race", script, "; ".join(tsan_summary(tsan)), tsan, err, xe))
-        fl = check_observations(script, out, stats if xe is exe else None)
+        # the oracle: a successful reload replaces BOTH tables in one step
+        fl = check_observations(script, out, stats if xe is exe else None, atomic_reload=True)
+        if any(f[0] in ("mono", "lin") for f in fl):
+            # classification only: the same observations against a reload that swaps the prefix table and the router-key
+            # table in two steps.  Consistent with that one -> the failure is the gap between the two swaps.
+            f2 = check_observations(script, out, None, atomic_reload=False)
+            if not any(f[0] in ("mono", "lin") for f in f2):
+                stats["xtable_live"] += 1
+                xlive.append((script, [f for f in fl if f[0] in ("mono", "lin")][0][1]))
+                fl = [(("xtable", m + "  [these observations fit a reload that replaces the prefix table and the router-key "
+                        "table in two separate steps, and no reload that replaces both at once]") if k in ("mono", "lin") else (k, m))
+                      for k, m in fl]
         for kind, msg in fl[:3]:
             failures.append((kind, script, msg, tsan, err, xe))
-        if not fl:
-            # the same observations judged against a reload that replaces BOTH tables in one step
-            fx = [f for f in check_observations(script, out, None, atomic_reload=True) if f[0] in ("mono", "lin")]
-            if fx:
-                stats["xtable_live"] += 1
-                xlive.append((script, fx[0][1]))
 
     # corpus first
     for path in corpus_files(".ops"):
@@ -1009,14 +1036,33 @@ def run(pid, tier):
             if failures or not gate_missing:
                 break       # otherwise: a class was reached without an overlapping reader (scheduling); once more
 
-    # C06: the cross-table schedule on the real reload path
+    # C06: the cross-table schedules on the real reload path (a reader parked inside one live table while the reload runs)
     xt_lines = []
+    xt_fail = []     # (tag, path, X line, message, tsan)
     if pid == "C06":
         for path in corpus_files(".xops"):
             out, rc, tsan, err = run_harness(exe, "xtable", open(path).read(), "xtable", timeout=60)
             stats["xtable_runs"] += 1
             xl = [l for l in out if l.startswith("X ")]
-            xt_lines.append((path, xl[0] if xl else "(no result, rc=%s)" % rc, tsan))
+            line = xl[0] if xl else "(no result, rc=%s)" % rc
+            xt_lines.append((path, line, tsan))
+            kv = dict(w.split("=", 1) for w in line.split()[1:] if "=" in w) if xl else {}
+            if not xl or rc != 0 or not out or out[-1] != "done":
+                xt_fail.append(("xtable-hang", path, line, "the reload did not complete under this schedule (harness rc=%s%s): with a reader "
+                                "inside one live table the synchronising thread must wait and then finish" % (
+                                    rc, ", timeout: deadlock?" if rc == -999 else ""), tsan))
+            elif kv.get("saw_new_pfx_with_old_keys") == "1":
+                xt_fail.append(("xtable", path, line, "a reader validated a route against the NEW prefixes and afterwards looked up router "
+                                "keys and got the OLD keys", tsan))
+            elif kv.get("saw_new_keys_with_old_pfx") == "1":
+                xt_fail.append(("xtable", path, line, "a reader looked up router keys, got the NEW keys, and afterwards validated a route "
+                                "against the OLD prefixes", tsan))
+            elif tsan.count("WARNING: ThreadSanitizer"):
+                xt_fail.append(("race", path, line, "; ".join(tsan_summary(tsan)), tsan))
+            elif kv.get("reload_rc") != "0" or kv.get("final_pfx") == kv.get("first_pfx") or kv.get("final_keys") == kv.get("first_keys"):
+                xt_fail.append(("xtable-corr", path, line, "the scripted reload did not replace both tables (harness/script drift)", tsan))
+            if kv.get("sync_parked_inside_pfx_section") == "1":
+                stats["xtable_combined_section_seen"] = stats.get("xtable_combined_section_seen", 0) + 1
 
     rep.cov.update({
         "evaluations": stats["obs"],
@@ -1039,6 +1085,8 @@ def run(pid, tier):
             "reload_contended_observations": len(stats["reload_contended"]), "tsan_reports": stats["tsan_reports"],
             "crashes": stats["crashes"], "xtable_runs": stats["xtable_runs"],
             "stress_runs_with_cross_table_observation": stats["xtable_live"],
+            "xtable_results": [xl for _p, xl, _t in xt_lines],
+            "xtable_runs_with_sync_waiting_inside_combined_section": stats.get("xtable_combined_section_seen", 0),
             "size_class_scripts": stats["size_scripts"], "size_class_asan_runs": stats["asan_runs"],
             "size_class_plan": size_info, "size_classes": stats["size_classes"],
             "size_classes_in_corpus_and_random_scripts": {c: v["reloads"] for c, v in stats.get("size_classes_elsewhere", {}).items()},
@@ -1066,8 +1114,8 @@ def run(pid, tier):
         if kind in seen_kinds:
             continue
         seen_kinds.add(kind)
-        if kind == "corr" or (kind == "reload" and pid != "C06"):
-            continue
+        if kind == "corr" or (kind in ("reload", "xtable") and pid != "C06"):
+            continue      # what a full reload does to the data set, also across the two tables, is C06's clause
         text = script.text()
         if kind == "race" and tier == "quick":
             want = set(tsan_summary(tsan))
@@ -1091,33 +1139,45 @@ def run(pid, tier):
                   "crash": "the implementation aborted under concurrent use (assertion / signal)",
                   "lin": "every read returns the answer for the table contents at some instant between call and return",
                   "mono": "no reader observes the new set and afterwards the old one",
+                  "xtable": "a reader sees either the complete old data set or the complete new one - prefixes AND router keys: "
+                            "no reader observes new data of one table and afterwards old data of the other",
                   "reload": "a full reload replaces the cache's data: afterwards exactly the new data set is present"}[kind]
         full = rep.replay_path(kind) + ".full.ops"
         with open(full, "w") as f:
             f.write(script.text())
-        rep.violation(kind, "# property %s, clause: %s\n# %s\n%s# replay (schedule dependent, repeat if needed): TSAN_OPTIONS=log_path=/tmp/tsan "
+        rep.violation("xtable_stress" if kind == "xtable" else kind, "# property %s, clause: %s\n# %s\n%s# replay (schedule dependent, repeat if needed): TSAN_OPTIONS=log_path=/tmp/tsan "
                       "%s stress <this file>\n# unminimised script: %s\n# --- stderr of the implementation ---\n%s\n"
                       "%s\n# --- ThreadSanitizer excerpt ---\n%s\n" % (
                           pid, clause, detail, ir_text, os.path.relpath(fexe, vlib.VERIF), full, "\n".join("# " + l for l in ([l for l in err.splitlines() if l.startswith(("H ", "(history"))][-17:] +
                                                                 [l for l in err.splitlines() if not l.startswith(("H ", "(history"))][:14])), text,
                           "\n".join("# " + l for l in tsan.splitlines()[:70])))
     corr = [f for f in failures if f[0] == "corr"]
-    real = [f for f in failures if f[0] != "corr" and not (f[0] == "reload" and pid != "C06")]
+    real = [f for f in failures if f[0] != "corr" and not (f[0] in ("reload", "xtable") and pid != "C06")]
     if pid == "C06":
-        for path, xl, tsan in xt_lines:
-            if "saw_new_pfx_with_old_keys=1" in xl:
-                rep.violation("xtable",
-                              "# property C06, clause: a reader sees either the complete old data set or the complete new one\n"
-                              "# observed on the real reload path (rtr_sync_receive_and_store_pdus): after pfx_table_swap and before\n"
-                              "# spki_table_swap a reader validated a route against the NEW prefixes and then looked up router keys\n"
-                              "# and got the OLD keys.  The two swaps are separate critical sections (Rtr.C06.cross_table_gap).\n"
-                              "# schedule: a reader is inside a read section of the live router-key table (read lock held), the\n"
-                              "# synchronising thread blocks in spki_table_swap; a second reader runs validate + get_all.\n"
-                              "# %s\n# replay: build/h_locks_*/locks xtable %s\n%s\n%s" % (
-                                  xl, path, open(path).read(),
-                                  "".join("# also seen without any parked reader, in stress script %s: %s\n" % (sc.name, m)
-                                          for sc, m in xlive[:3])),
-                              signature="C06/cross-table")
+        # ordinary oracle clause (until the repair of the reload this was the known finding C06/cross-table)
+        shown = set()
+        for tag, path, xl, msg, tsan in xt_fail:
+            if tag == "xtable-corr" or (tag, path) in shown:
+                continue
+            shown.add((tag, path))
+            park = "router-key" if "park=spki" in xl or "park=" not in xl else "prefix"
+            rep.violation(tag + ("_" + os.path.basename(path).split(".")[0] if len(xt_fail) > 1 else ""),
+                          "# property C06, clause: a reader sees either the complete old data set or the complete new one (prefixes AND\n"
+                          "#   router keys): no reader observes new data of one table and afterwards old data of the other\n"
+                          "# observed on the real reload path (rtr_sync_receive_and_store_pdus): %s\n"
+                          "# schedule: a reader is inside a read section of the live %s table (read lock held) while the reload\n"
+                          "# runs; a second reader alternately runs validate_r then get_all, and get_all then validate_r.\n"
+                          "# (a reload that puts the two shadow tables in place in ONE critical section - write locks of both live\n"
+                          "#  tables - cannot show this: Rtr.C06.cross_table_atomic, never_new_pfx_then_old_keys)\n"
+                          "%s# %s\n# replay: %s xtable %s\n%s\n%s%s" % (
+                              msg, park, ir_text, xl, os.path.relpath(exe, vlib.VERIF), path, open(path).read(),
+                              "".join("# also seen without any parked reader, in stress script %s: %s\n" % (sc.name, m)
+                                      for sc, m in xlive[:3]),
+                              "\n".join("# " + l for l in tsan.splitlines()[:40])))
+        real = real + [f for f in xt_fail if f[0] != "xtable-corr"]
+        if any(f[0] == "xtable-corr" for f in xt_fail) and not real:
+            rep.build_log = "\n".join("%s: %s (%s)" % (f[1], f[3], f[2]) for f in xt_fail)
+            vlib.proof_failure(rep, "correspondence locks/xtable (the scripted cross-table schedule no longer runs as intended)")
     if pid == "C06" and gate_missing and not real and not corr:
         rep.build_log = "size classes exercised: %r\nplan: %r" % (stats["size_classes"], size_info)
         vlib.proof_failure(rep, "C06 coverage gate: no full reload with old and new router-key table in size class relation %s was "
